@@ -34,7 +34,7 @@ TEXTS = {
         "technique": "Lean 4 proof of sub-claims + metamorphic oracle",
     },
     "C05": {
-        "text": "Lean theorems about the exact model of the search, for every input (Proofs/SearchFirstToken, SearchChildLines): format_line_starting_ws (the solution the search returns for a line starts at exactly the line's level, 0 continuations: an invariant of the heap loop - every node carries the root's starting whitespace and root decision - through get_potential_solution, the indifference and successor loops and the binary-heap operations), format_line_first_decision (the first decision is a break with 0 continuations unless the line may not break at its start: first token of the file, or a comment sharing its line with code), searchSolve_first_token / wrapStageFull_first_token (through the whole wrapper stage the first token of every line whose wrapping succeeds ends with 1 or 2 line breaks, indentation = the line's level, no continuation, no spaces), line_start_rendering (so the reconstructor emits it first on its own line behind exactly level indentation units), format_line_children / wrapStageFull_children (every child solution at every depth starts from whitespace derived from its parent's: TreeOk), begin_always_wrap_partial (under begin_style=always_wrap the options offered for a then/do/else/case-arm begin are all 'break'). Lean theorem for the rendering of first-token counters; block structure itself decided by a generator-marked structure "
+        "text": "Lean theorems about the exact model of the search, for every input (Proofs/SearchFirstToken, SearchChildLines): format_line_starting_ws (the solution the search returns for a line starts at exactly the line's level, 0 continuations: an invariant of the heap loop - every node carries the root's starting whitespace and root decision - through get_potential_solution, the indifference and successor loops and the binary-heap operations), format_line_first_decision (the first decision is a break with 0 continuations unless the line may not break at its start: first token of the file, or a comment sharing its line with code), searchSolve_first_token / wrapStageFull_first_token (through the whole wrapper stage the first token of every line whose wrapping succeeds ends with 1 or 2 line breaks, indentation = the line's level, no continuation, no spaces), line_start_rendering (so the reconstructor emits it first on its own line behind exactly level indentation units), format_line_children / wrapStageFull_children (every child solution at every depth starts from whitespace derived from its parent's: TreeOk), begin_always_wrap (under begin_style=always_wrap, in every solution the search returns, the begin of a then/do/else/case-arm body is placed by a breaking option at the controlling statement's indentation: a strengthened tree invariant through the search loops) and begin_always_wrap_counters; child_line_first_token / wrapStageFull_child_first_token (a statement of a child block - an anonymous routine body, a begin..end body - starts its own line, indented by the parent's indentation plus its level), sibling_children_same_indent (statements of one list are aligned; one level deeper = one indentation more). Lean theorem for the rendering of first-token counters; block structure itself decided by a generator-marked structure "
                 "oracle (first-on-line, one unit deeper than the opener's line, closers at the opener's indentation, begin under "
                 "always_wrap) on every generated program (partial). The parser's control flow (which decides lines and levels) is an exact Lean model compared with the real parser on every case (pfull stream), and so are the consolidators (cl) and the wrapper stage around the search (wp).",
         "design_ref": "DESIGN.md section 5 (C05), 12.2",
@@ -105,7 +105,7 @@ TEXTS = {
         "technique": "Lean 4 proof over executable model + differential correspondence + metamorphic oracle",
     },
     "C10": {
-        "text": "Lean theorems: tab expansion of the use_tabs rendering equals the spaces rendering for fixed counters (ci*tw<=255); "
+        "text": "Proofs/SearchWidthFree (towards the agreement of the search's decisions under the two settings): a source-level inventory of every read of a line length or of the width limit in the model of the search (the widths enter only through LineWhitespace.len in get_token_line_length and the root's length; lengths are consumed only by the overflow summand of the continuation penalty, the too-long test of the indifference loop and the child-line cache key), penalty_width_free and too_long_false (both consumers are blind to the widths while no length exceeds the limit), requirement_width_free, stage_of_search_simulation_partial (C10 for the whole wrapper stage reduced to a simulation between the two searches), and stage_tab_width_one (for tab_width = 1 the two settings give the search the same view, so the statement holds for the closed model without any premise on the width). Lean theorems: tab expansion of the use_tabs rendering equals the spaces rendering for fixed counters (ci*tw<=255); "
                 "indentation = (levels + ci*continuations) units; saturation point characterised. Pair oracle on the real formatter with "
                 "unconstrained width for every well-formed case.",
         "design_ref": "DESIGN.md section 5 (C10)",
